@@ -504,7 +504,13 @@ func (t *Target) gnmiUpdate(n *pb.Notification) (*ctree.Leaf, error) {
 		suffix = nil
 	}
 	path := joinPrefixAndPath(n.Prefix, suffix)
+	if len(path) == 0 {
+		return nil, errors.New("update has an empty path")
+	}
 	if path[0] == metadata.Root {
+		if len(path) < 2 {
+			return nil, fmt.Errorf("update of the %q root is not supported", metadata.Root)
+		}
 		realData = false
 		u := n.Update[0]
 		switch path[1] {
@@ -623,7 +629,7 @@ func toDeleteNotification(n *pb.Notification, timestamp int64) *pb.Notification 
 
 func (t *Target) gnmiRemove(n *pb.Notification) []*ctree.Leaf {
 	path := joinPrefixAndPath(n.Prefix, n.Delete[0])
-	if path[0] == metadata.Root {
+	if len(path) > 1 && path[0] == metadata.Root {
 		t.meta.ResetEntry(path[1])
 	}
 	var leaves []*ctree.Leaf
